@@ -84,6 +84,8 @@ def run_poly(c):
             t = translation(c["iso"][1], c["iso"][2]) * rotation(ang)
         else:
             ax = np.array(c["frame"][3:6], float) + np.array([1.0, 0.0, 2.0])
+            if not np.any(ax):
+                raise Skip("zero rotation axis")
             t = translation(*c["iso"][1:4]) * rotation(ang, axis=P(ax))
     sc = [C.scale_value(s) for s in c["scales"]]
     H = np.concatenate([V, np.ones((n, 1))], axis=1) * np.array([sc[i % 7] for i in range(n)])[:, None]
